@@ -2,6 +2,7 @@ import BeyondVerif.Model.ManF
 import BeyondVerif.Model.ManWin
 import BeyondVerif.Model.FrameReg
 import BeyondVerif.Model.FrameName
+import BeyondVerif.Model.ManObj
 import BeyondVerif.Drv.Util
 namespace BeyondVerif.Drv.C17
 open BeyondVerif BeyondVerif.Drv BeyondVerif.F BeyondVerif.ManWin BeyondVerif.Generated
@@ -95,6 +96,7 @@ partial def parseRefs : List String → Option (List FrameReg.RefObj × List Str
 `c17.local <QSW|TNW> x0..x5`                 → 9 floats, `to_local(tag, x, expanded=False)` row-major; other tags: `value-error`
 `c17.proj <QSW|TNW|-> x0..x5 d0 d1 d2`       → 3 floats, `ImpulsiveMan.dv` / `ContinuousMan.accel`
 `c17.accdv <QSW|TNW|-> x0..x5 d0 d1 d2 dur`  → 3 floats, `ContinuousMan(dv=…).accel`
+`c17.kseq cont|imp dur da di dO sx sy sz (x0..x5 mu a i v)*` → 3 floats per state: the same object called on the states in turn
 `c17.kepdv x0..x5 dvt dvw`                    → 3 floats, `to_tnw(orb).T @ [dvt, 0, dvw]`
 `c17.to <tag> ref0..ref5 x0..x5`              → 6 floats, parent → attached frame
 `c17.from <tag> ref0..ref5 y0..y5`            → 6 floats
@@ -163,6 +165,23 @@ def handle : List String → Option String
   | "c17.kcont" :: rest => some <|
     match takeFloats 14 rest with
     | some ([a, b, c, d, e, f, mu, sma, i, v, da, di, dO, dur], _) => fsToStr (kepContAccel (v3 a b c) (v3 d e f) mu sma i v da di dO dur).toList
+    | _ => "bad-op"
+  | "c17.kseq" :: kind :: rest => some <|
+    -- one Keplerian maneuver object called on several states in turn: the statement list of the method (regenerated from the
+    -- source) run by the state machine of Model/ManObj.lean from the stored vector (sx, sy, sz)
+    match takeFloats rest.length rest with
+    | some (dur :: da :: di :: dO :: sx :: sy :: sz :: fs, _) =>
+      let sts : List (List Float) := (List.range (fs.length / 10)).map (fun k => (fs.drop (10 * k)).take 10)
+      let g : List Float → Nat → Float := fun l k => l.getD k 0
+      let level : List Float → V3 := fun o =>
+        let d : V3 := ⟨dkepDvT (g o 6) (g o 7) (g o 8) (g o 9) da di dO, 0, dkepDvW (g o 6) (g o 7) (g o 8) (g o 9) da di dO⟩
+        if kind == "cont" then accelOfDv d dur else d
+      let proj : List Float → V3 → V3 := fun o acc => manProject Tag.tnw (v3 (g o 0) (g o 1) (g o 2)) (v3 (g o 3) (g o 4) (g o 5)) acc
+      let prog := if kind == "cont" then Generated.FrameNames.kepContAccelProg else Generated.FrameNames.kepImpDvProg
+      joinWith " " ((ManObj.runCalls prog level proj (v3 sx sy sz) sts).map (fun r =>
+        match r with
+        | some w => fsToStr w.toList
+        | none => "none none none"))
     | _ => "bad-op"
   | "c17.kepplane" :: rest => some <|
     match takeFloats 6 rest with
